@@ -1,4 +1,4 @@
-import LZ4V.Proofs.FastMain
+import LZ4V.Proofs.FastCap
 import LZ4V.Proofs.Arith
 /-!
 # C09 — block compressors honour the destination-capacity contract (specification + regenerated bound part)
@@ -42,5 +42,19 @@ theorem fast_compressor_within_bound (P : LZ4V.Model.Fast.Params) (src : Array U
   rw [LZ4V.Arith.compressBound_eq _ hn]
   have := LZ4V.Model.Fast.compress_size P src tableSize hb ha blk h
   omega
+
+/-- **never beyond the capacity**: under `limitedOutput` (capacity below the bound) every block the fast compressor model
+    returns fits the capacity: its output position is exactly the serialised length, and each sequence and the last run
+    are emitted only after the test the C code makes -/
+theorem fast_compressor_fits_capacity (P : LZ4V.Model.Fast.Params) (src : Array UInt8) (tableSize : Nat)
+    (hb : P.byU16 = true → src.size < 65547) (ha : 1 ≤ P.accel) (cap : Nat) (hl : P.limit = some cap) (blk : List UInt8)
+    (h : LZ4V.Model.Fast.compress P src tableSize = some blk) : blk.length ≤ cap :=
+  LZ4V.Model.Fast.compress_fits P src tableSize hb ha cap hl blk h
+
+/-- **success at the bound**: with `notLimited` (what the entry points select when `dstCapacity ≥ LZ4_compressBound(n)`) the
+    model returns a block for every input of legal size -/
+theorem fast_compressor_succeeds_at_bound (P : LZ4V.Model.Fast.Params) (src : Array UInt8) (tableSize : Nat)
+    (hl : P.limit = none) (hn : src.size ≤ LZ4_MAX_INPUT_SIZE) : ∃ blk, LZ4V.Model.Fast.compress P src tableSize = some blk :=
+  LZ4V.Model.Fast.compress_succeeds P src tableSize hl hn
 
 end LZ4V.C09
